@@ -4,8 +4,11 @@ open Gallia Gallia.Proto Gallia.SessionScan
 
 /-
   line protocol (one case per line, fields separated by single spaces):
-    scan d=<n> skip=<csv|-> th=<0|1> rs=<n|-> hk=<0|1> mr=<n> rst=<p|s|n<dec>> g=<edges|->
-    spec d=<n> skip=<csv|-> g=<edges|-> rep=<s@a.b.c;...|->
+    scan d=<n> skip=<csv|-> th=<0|1> rs=<n|-> hk=<0|1> mr=<n> rst=<p|s|n<dec>> g=<edges|-> [gh=<edges|->]
+         [hp=<csv of 2-byte hook PDUs as numbers|->] [hq=<csv|->] [boot=<n>]
+      gh: the ECU's answers to a hooked attempt (default: the same graph); hp / hq: requests of set_session_pre /
+      set_session_post of the ECU class; boot: pings left unanswered after an accepted reset
+    spec d=<n> skip=<csv|-> g=<edges|-> [gh=.. hk=.. hp=..] rep=<s@a.b.c;...|->   (evaluated on the effective graph `edge`)
   edges: `a>b:p` (positive) `a>b:s` (silent) `a>b:n<dec>` (NRC), comma separated; absent = NRC 0x12
 -/
 
@@ -60,6 +63,7 @@ def showReq (r : Req) : String :=
     | .probe => "10" ++ hex2 r.target
     | .reset => "11" ++ hex2 r.target
     | .ping => "3e00"
+    | .hook => hex2 (r.target / 256) ++ hex2 r.target
   s!"{pdu}@{r.cur}"
 
 def csv (xs : List Nat) : String := if xs.isEmpty then "-" else ",".intercalate (xs.map toString)
@@ -72,13 +76,17 @@ def mkCfg (kv : List (String × String)) : Cfg :=
     thorough := field kv "th" == "1"
     reset := (field kv "rs").toNat?
     hooks := field kv "hk" == "1"
-    maxRetry := (field kv "mr").toNat?.getD 0 }
+    maxRetry := (field kv "mr").toNat?.getD 0
+    preHook := parseCsv (field kv "hp")
+    postHook := parseCsv (field kv "hq") }
 
 def runScan (kv : List (String × String)) : String :=
   let c := mkCfg kv
   let t := parseGraph (field kv "g")
   let ra := (parseAns (field kv "rst")).getD .pos
-  let E : Ecu := { g := graphFn t, rst := fun _ => ra }
+  let th := if field kv "gh" == "-" then t else parseGraph (field kv "gh")
+  let boot := (field kv "boot").toNat?.getD 0
+  let E : Ecu := { g := graphFn t, rst := fun _ => ra, gh := graphFn th, boot := fun _ => boot }
   let st := scan c E
   let tr := (transitions st).map fun (s, stack) => s!"{s}@{dots stack}"
   let ng := (negReported st).map fun (s, stack, code) => s!"{s}@{dots stack}@{code}"
@@ -89,7 +97,9 @@ def runScan (kv : List (String × String)) : String :=
 def runSpec (kv : List (String × String)) : String :=
   let d := (field kv "d").toNat?.getD 0
   let skip := parseCsv (field kv "skip")
-  let g := graphFn (parseGraph (field kv "g"))
+  let t := parseGraph (field kv "g")
+  let th := if field kv "gh" == "-" then t else parseGraph (field kv "gh")
+  let g := edge (mkCfg kv) { g := graphFn t, rst := fun _ => .pos, gh := graphFn th }
   let rep := if field kv "rep" == "-" then [] else (field kv "rep").splitOn ";"
   let bad := rep.filter fun e => match e.splitOn "@" with
     | [s, st] =>
